@@ -10,3 +10,8 @@ Theorem C13_refine h t v f h' p x y : Inv h -> range h t -> range h f -> struct 
   Inv h' /\ range h' p /\ struct h' p = Some (mk x v y) /\ (forall q, range h q -> range h' q /\ struct h' q = struct h q).
 Proof. exact (mk_choice_ok h t v f h' p x y). Qed.
 Print Assumptions C13_histories. Print Assumptions C13_sharing.
+
+(** a history from the initial table: mk(T,0,F) twice returns the same address and the table grows once *)
+Example C13_instance :
+  exists h1 p h2 q, h_mk_choice h_new 0 0 1 = Some (h1, p) /\ h_mk_choice h1 0 0 1 = Some (h2, q) /\ p = q /\ length (table h2) = 3.
+Proof. do 4 eexists. split; [vm_compute; reflexivity|]. split; [vm_compute; reflexivity|]. split; reflexivity. Qed.
